@@ -67,6 +67,10 @@ def gen_op(s: Choices, family: str, ds, mask_kinds=("none", "bool", "slice", "po
             op["funcs"] = [["sum", "max"], ["min", "count"], ["mean", "first"], ["last", "sum"], "sum", "max", "mean"][s.draw(7)]
             if isinstance(op["funcs"], list):
                 op["cols"] = [op["cols"][0]]
+                # (several reductions in one call: anything they share on the object -- the lazily
+                #  unified key above all -- is touched by each of them; seeded change C03-j)
+                if not op["transform"]:
+                    op["transform"] = s.chance(1, 3)
         if name not in ("var", "std") and not op["transform"] and s.chance(1, 16):
             # 'All' rows; for several keys also for chosen levels only
             nk = len(ds["key_kinds"])
